@@ -225,6 +225,14 @@ def real_libm(ex, st, name, args):
     """REAL domain: algebraic contract where there is one, otherwise a memoised leaf"""
     d = ex.dom
     a = args[0]
+    if all(isinstance(x, (Fraction, int)) for x in args) and name in ('pow', 'exp', 'cbrt', 'log1p', 'atan', 'tan',
+                                                                       'atan2', 'hypot', 'fmod'):
+        # constant folding of a transcendental call on concrete arguments (e.g. static initialisers):
+        # the double the real libm returns
+        try:
+            return Fraction(getattr(_libm, name)(*[float(x) for x in args]))
+        except (ValueError, OverflowError):
+            return math.nan
     if isinstance(a, float) or (len(args) > 1 and isinstance(args[1], float)):
         if any(isinstance(x, float) and x != x for x in args):
             return math.nan
